@@ -13,7 +13,8 @@ from pathlib import Path
 from .. import e2e
 from ..common import hx, unhx
 from ..runner import Check
-from ..subproc import child_env, pmap, run_py
+from ..subproc import child_env, pmap
+from .c18_pool import run_py
 from ..translate import cli_tables
 
 # ---------------------------------------------------------------- the option vocabulary (from the real argparse table)
@@ -311,7 +312,10 @@ SKIP_E2E = {"custom_file_header_path", "encoding", "input_file_type", "debug", "
 class Runner:
     """One scratch directory per run; `.git` stops the pyproject discovery at the scratch directory."""
 
-    def __init__(self) -> None:
+    def __init__(self, env_toml: str = "") -> None:
+        # `env_toml`: tables of OTHER tools ([tool.black], [tool.isort]) in the pyproject.toml next to the output — the
+        # project environment every route of supplying the options runs in (written for all three ways alike)
+        self.env_toml = env_toml
         self.root = Path(tempfile.mkdtemp(prefix="c18-", dir=e2e.scratch_root()))
         self.counter = itertools.count(1)
         real = option_table()
@@ -328,8 +332,9 @@ class Runner:
         (d / "fmtkw.json").write_text(json.dumps({"mark": "kw"}))
         for mod in ("c18fmt", "c18fmt2"):   # importable by `python -m …` and `python -c …` (cwd is on sys.path)
             (d / f"{mod}.py").write_text(FORMATTER_SRC.format(name=mod))
-        if pyproject is not None or raw_keys:
-            (d / "pyproject.toml").write_text(self.pyproject_text(pyproject, raw_keys))
+        if pyproject is not None or raw_keys or self.env_toml:
+            own = self.pyproject_text(pyproject, raw_keys) if pyproject is not None or raw_keys else ""
+            (d / "pyproject.toml").write_text(own + self.env_toml)
         return d
 
     def pyproject_text(self, pyproject: dict | None, raw_keys: dict | None = None) -> str:
@@ -433,10 +438,20 @@ def three_ways_judge(ck: Check, camp, rn: Runner, opts: dict, res: dict, baselin
     odd = "keyword" if same(c, p) else "pyproject" if same(c, k) else "cli" if same(p, k) else "all"
     mech = "one-side-fails" if len({c["rc"], p["rc"], k["rc"]}) > 1 else "output-differs"
     cls = {"oracle": "three_ways", "option": name, "value": "+".join(opts[x] for x in sorted(opts)), "odd_one": odd, "mechanism": mech}
+    inp = {"kind": "three_ways", "opts": opts}
     obs = f"cli: {describe(c)}; pyproject: {describe(p)}; keyword: {describe(k)}"
+    if rn.env_toml:
+        cls["project_env"] = True
+        inp["env_toml"] = rn.env_toml
+        obs = f"with {rn.env_toml!r} in the pyproject.toml next to the output — " + obs
     if mech == "output-differs":
         obs += "; first difference: " + first_diff(c["output"], p["output"] if odd != "keyword" else k["output"])
-    ck.fail(cls, {"kind": "three_ways", "opts": opts}, obs, "byte-identical output and equal exit status for the three ways")
+    ck.fail(cls, inp, obs, "byte-identical output and equal exit status for the three ways")
+
+
+# Known finding D22 (C01 / C07): with this value NO route returns (the three ways agree: all hang until the watchdog
+# fires, 3 × 120 s of CPU). The thorough tier runs it and records "all-three-ways-hang"; the quick sample leaves it out.
+NEVER_RETURNS = [{"special_field_name_prefix": "0"}]
 
 
 def e2e_options(ck: Check, rn: Runner) -> list[dict]:
@@ -453,19 +468,24 @@ def e2e_options(ck: Check, rn: Runner) -> list[dict]:
     all_opts += [o for o in E2E_EXTRA_SETS if all(k in tab for k in o)]
     if ck.tier == "thorough":
         return all_opts
+    # quick: a stratified sample (the subprocess budget of the quick tier; the thorough tier and the searches that
+    # follow a broken obligation / correspondence run everything). Strata: options coupled by validators, falsy-but-
+    # given values, options whose value a validator opens / splits / rewrites, then one stratum per option kind.
     rng = ck.rng.fork("e2e-sample")
-    must = [o for o in all_opts if set(o) & {"use_annotated", "field_constraints", "snake_case_field"} or o == {"output_model_type": "msgspec.Struct"}
-            or "" in o.values()   # every falsy-but-given value is always run
-            or set(o) & set(E2E_EXTRA)]  # so is every option whose value a validator opens / splits / rewrites
+    coupled = [o for o in all_opts if set(o) & {"use_annotated", "field_constraints", "snake_case_field"} or o == {"output_model_type": "msgspec.Struct"}]
+    falsy = [o for o in all_opts if "" in o.values() and o not in coupled]
+    rewritten = [o for o in all_opts if set(o) & set(E2E_EXTRA) and o not in coupled and o not in falsy]
+    # (the msgspec coupling is the witness of D15, re-run by known_findings() in every tier)
+    always = [o for o in coupled if o == {"use_annotated": "True"}]   # the known coupling D15, flag side
+    picked = always + rng.sample([o for o in coupled if o not in always], 1) + rng.sample(falsy, 2) + rng.sample(rewritten, 1)
     strata: dict[str, list[dict]] = {}
     for o in all_opts:
-        if o in must:
+        if o in coupled or o in falsy or o in rewritten or o in NEVER_RETURNS:
             continue
         strata.setdefault(tab[sorted(o)[0]]["kind"], []).append(o)
-    picked = list(must)
-    quota = {"bool": 5, "enum": 4, "enumlist": 1, "text": 1}
+    quota = {"bool": 2, "enum": 1, "enumlist": 1, "text": 1}
     for kind, pool in sorted(strata.items()):
-        picked += rng.sample(pool, quota.get(kind, 2))
+        picked += rng.sample(pool, quota.get(kind, 1))
     return picked
 
 
@@ -569,7 +589,7 @@ def campaign_both_present(ck: Check, rn: Runner, cache: dict) -> None:
         else:
             jobs.append((d, v, rng.choice(others), res["cli"]))
     if ck.tier == "quick":
-        jobs = rng.sample(jobs, 8)
+        jobs = rng.sample(jobs, 1)
     jobs = must + jobs
     # options that imply other settings: every ordered pair (pyproject value, command-line value); in the thorough tier
     # every enum option
@@ -648,7 +668,9 @@ def split_case(ck: Check, camp, rn: Runner, a: dict, b: dict) -> None:
 def campaign_split(ck: Check, rn: Runner) -> None:
     camp = ck.campaign("e2e: an option pair split between pyproject.toml and command line vs given in one place")
     t0 = time.time()
-    pairs = SPLIT_PAIRS if ck.tier == "thorough" else SPLIT_PAIRS[:2] + SPLIT_PAIRS[3:6]
+    # quick: one pair, rotating with the seed (the first pair is the witness of C18-split, re-run by known_findings()
+    # in every tier)
+    pairs = SPLIT_PAIRS if ck.tier == "thorough" else ck.rng.fork("split-sample").sample(SPLIT_PAIRS[1:], 1)
     split_many(ck, camp, rn, pairs)
     camp.wall_s = time.time() - t0
 
@@ -679,6 +701,8 @@ def campaign_exit(ck: Check, rn: Runner) -> None:
         ("undetectable-input-type", {}, None, ["--input", "t.txt"], {"t.txt": ": : :"}),
         ("keyword-only-3.9", {"keyword_only": "True", "output_model_type": "dataclasses.dataclass"}, None, ["--input", "s.json", "--input-file-type", "jsonschema"], {}),
     ]
+    if ck.tier == "quick":   # a rotating sample; every case in the thorough tier
+        cases = ck.rng.fork("exit-sample").sample(cases, 3)
     for name, r in pmap(run, cases):
         camp.evaluations += 1
         camp.hit(name)
@@ -691,22 +715,30 @@ def campaign_exit(ck: Check, rn: Runner) -> None:
 
 
 # ---------------------------------------------------------------- search (only after a broken obligation / disagreement)
+def refuted_names(ck: Check) -> list[str]:
+    """the options the model-side refuters of the CliTables obligations name (dest names)"""
+    names = []
+    for what in ("defaults", "dests", "forwarded", "parser"):
+        try:
+            rep = ck.driver.run([f"config.refute {what}"])[0]
+        except Exception:  # noqa: BLE001
+            continue
+        if rep.startswith("ok "):
+            names.append(unhx(rep.split(" ")[1]))
+    inv = {v: k for k, v in RENAMES.items()}
+    return [inv.get(n, n) for n in names]
+
+
 def search_broken_tables(ck: Check) -> None:
     """Model-side refuters name the option whose plumbing is broken; the three-ways oracle is run on it
-    (DESIGN §2.5), then on every option."""
+    (DESIGN §2.5) — in the bare scratch project, then in every project environment (c18_env: a tri-state option
+    that is not given leaves the decision to the [tool.black] table) — then on every option."""
+    from . import c18_env
+
     rn = Runner()
     camp = ck.campaign("search: options named by the table refuters, then every option, through the three-ways oracle")
     try:
-        names = []
-        for what in ("defaults", "dests", "forwarded", "parser"):
-            try:
-                rep = ck.driver.run([f"config.refute {what}"])[0]
-            except Exception:  # noqa: BLE001
-                continue
-            if rep.startswith("ok "):
-                names.append(unhx(rep.split(" ")[1]))
-        inv = {v: k for k, v in RENAMES.items()}
-        names = [inv.get(n, n) for n in names]
+        names = refuted_names(ck)
         baseline = rn.cli({})
         todo = []
         for n in names:
@@ -716,6 +748,10 @@ def search_broken_tables(ck: Check) -> None:
         for o in todo:
             three_ways(ck, camp, rn, o, baseline)
             both_ways_default_probe(ck, camp, rn, o)
+            if ck.failures:
+                return
+        if names:
+            c18_env.search_env(ck, names)
             if ck.failures:
                 return
         saved = ck.tier
@@ -730,7 +766,21 @@ def search_broken_tables(ck: Check) -> None:
                 both_ways_default_probe(ck, camp, rn, o)
                 if ck.failures:
                     return
+        if not names and not ck.failures:
+            c18_env.search_env(ck, [])
     finally:
+        rn.close()
+
+
+def search_both_present(ck: Check) -> None:
+    """after a broken obligation / correspondence: every enum option, every ordered pair (pyproject value, flag value)"""
+    rn = Runner()
+    saved = ck.tier
+    ck.tier = "thorough"
+    try:
+        campaign_both_present(ck, rn, {})
+    finally:
+        ck.tier = saved
         rn.close()
 
 
@@ -753,7 +803,7 @@ def both_ways_default_probe(ck: Check, camp, rn: Runner, o: dict) -> None:
 
 # ---------------------------------------------------------------- known findings / replay
 def rerun(ck: Check, rn: Runner, inp: dict) -> None:
-    from . import c18_kv, c18_repeat
+    from . import c18_env, c18_kv, c18_repeat
 
     camp = ck.campaign("replay")
     kind = inp.get("kind")
@@ -761,6 +811,8 @@ def rerun(ck: Check, rn: Runner, inp: dict) -> None:
         c18_repeat.rerun(ck, camp, rn, inp)
     elif kind == "kv":
         c18_kv.rerun(ck, camp, rn, inp)
+    elif kind == "three_ways" and inp.get("env_toml"):
+        c18_env.rerun(ck, camp, inp)
     elif kind == "three_ways":
         three_ways(ck, camp, rn, inp["opts"], rn.cli({}))
     elif kind == "split":
@@ -784,9 +836,12 @@ def known_findings(ck: Check, rn: Runner) -> None:
 
 
 def run(ck: Check) -> None:
-    from . import c18_kv, c18_repeat
+    from . import c18_env, c18_kv, c18_repeat
+    from . import c18_pool
+    from .c18_pool import run_parts
 
     quick = ck.tier == "quick"
+    c18_pool.WATCHDOG_S[0] = 60.0 if quick else 120.0   # a child normally takes 2 s (10 s on a loaded machine)
     ck.translate("CliTables", cli_tables.generate())
     ck.prove()
     ck.assumptions += [
@@ -803,24 +858,45 @@ def run(ck: Check) -> None:
     campaign_merge(ck, 800 if quick else 8000)
     campaign_pyproject(ck, 120 if quick else 1200)
     c18_kv.campaign_kv_model(ck, 600 if quick else 6000)
+    _t0 = time.time()
+
+    def _t(label: str) -> None:
+        if os.environ.get("VERIF_DEBUG"):
+            print(f"[c18] {label}: {time.time() - _t0:.1f}s since the model campaigns")
+
     rn = Runner()
     try:
-        kv_finish = c18_kv.campaign_kv_three_ways(ck, rn, background=True)   # collected while the next campaign runs
-        cache = campaign_three_ways(ck, rn)
-        kv_finish()
-        c18_repeat.campaign_repeated(ck, rn, cache)
-        c18_kv.campaign_kv_repeated(ck, rn, ck.campaigns[-1])
-        campaign_alias_spellings(ck, rn)
-        campaign_both_present(ck, rn, cache)
-        campaign_split(ck, rn)
-        campaign_exit(ck, rn)
-        known_findings(ck, rn)
+        # independent campaigns run side by side (c18_pool: own result lists merged in program order, own random
+        # streams forked here in program order, one process-wide limit on child processes); the two campaigns that
+        # reuse the fresh-process runs of the three-ways campaign follow in a second group
+        box: dict = {}
+
+        def first(part) -> None:
+            kv_finish = c18_kv.campaign_kv_three_ways(part, rn, background=True)   # collected while the next campaign runs
+            box["cache"] = campaign_three_ways(part, rn)
+            kv_finish()
+
+        def repeated(part) -> None:
+            c18_repeat.campaign_repeated(part, rn, box.get("cache", {}))
+            c18_kv.campaign_kv_repeated(part, rn, part.campaigns[-1])
+
+        run_parts(ck, [("part:three-ways", first), ("part:alias", lambda p: campaign_alias_spellings(p, rn)),
+                       ("part:split", lambda p: campaign_split(p, rn)), ("part:env", c18_env.campaign_env),
+                       ("part:exit", lambda p: campaign_exit(p, rn))])
+        _t("group1")
+        run_parts(ck, [("part:repeated", repeated), ("part:both", lambda p: campaign_both_present(p, rn, box.get("cache", {}))),
+                       ("part:known", lambda p: known_findings(p, rn))])   # the witnesses of the known findings, re-run
+        _t("group2")
+        if os.environ.get("VERIF_DEBUG"):
+            from .c18_pool import COUNT, TALLY
+            print(f"[c18] child processes: {COUNT[0]} {TALLY}")
     finally:
         rn.close()
     # targeted searches (only after a broken obligation / correspondence), the most specific first: the value-carrying
     # family when its model or theorems broke, the options named by the table refuters, then every option through histories
     ck.search_hooks.append(c18_kv.search_kv)
     ck.search_hooks.append(search_broken_tables)
+    ck.search_hooks.append(search_both_present)
     ck.search_hooks.append(c18_repeat.search_repeated)
 
 
